@@ -635,11 +635,19 @@ static long check_keyword(const std::string& kwname, int sys, bool defaults, con
                 continue;
             }
             if (!e.uda) {
-                // lazy in-place conversion: raw view, then SI view again
-                double raw = di.get<double>(i), again = di.getSIDouble(i);
+                // lazy in-place conversion: the stored vector is SI now; getData<double>() flips it back to deck units, getSIDouble flips again
                 double mo = std::fabs(a.o / a.s);
+                double raw = di.getData<double>()[i], again = di.getSIDouble(i);
                 if (!(std::fabs(raw - e.raw[i]) <= 1e-13 * (std::fabs(e.raw[i]) + mo)) || !(std::fabs(again - want) <= tol))
-                    R->violation("C02:deck-lazy:" + std::string(SYSN[sys]) + (k == 'd' ? ":default" : ":value"), where + " element " + std::to_string(i) + ": after getSIDouble, get<double> = " + vf::fmt17(raw) + " (deck " + vf::fmt17(e.raw[i]) + "), getSIDouble again = " + vf::fmt17(again) + " (want " + vf::fmt17(want) + ")", rp(c));
+                    R->violation("C02:deck-lazy:" + std::string(SYSN[sys]) + (k == 'd' ? ":default" : ":value"), where + " element " + std::to_string(i) + ": after getSIDouble, getData<double>() = " + vf::fmt17(raw) + " (deck " + vf::fmt17(e.raw[i]) + "), getSIDouble again = " + vf::fmt17(again) + " (want " + vf::fmt17(want) + ")", rp(c));
+                // Observation beyond the property text (reported, not a violation): DeckItem::get<double>(i) bypasses the
+                // raw/SI flag and hands out whatever the vector currently holds, i.e. the SI value after an SI access.
+                double g = di.get<double>(i);
+                if (!(std::fabs(g - e.raw[i]) <= 1e-13 * (std::fabs(e.raw[i]) + mo)) && std::fabs(g - want) <= tol) {
+                    R->count("d_get_double_returns_SI_after_getSIDouble");
+                    if (!R->notes.count("d_get_double_after_SI_example")) R->notes["d_get_double_after_SI_example"] = where + ": deck value " + vf::fmt17(e.raw[i]) + ", get<double>() after getSIDouble() = " + vf::fmt17(g) + " (the SI value)";
+                } else if (!(std::fabs(g - e.raw[i]) <= 1e-13 * (std::fabs(e.raw[i]) + mo)))
+                    R->violation("C02:deck-lazy:get-double:" + std::string(SYSN[sys]), where + " element " + std::to_string(i) + ": get<double>() = " + vf::fmt17(g) + " is neither the deck value " + vf::fmt17(e.raw[i]) + " nor the SI value " + vf::fmt17(want), rp(c));
             }
         }
     }
@@ -686,6 +694,8 @@ static void case_n(const std::string& c) {
             bool dimless = true;
             for (auto& d : cur) for (int s = 0; s < 4; ++s) { Aff a = REF.dim(s, d, false); if (!a.ok || a.nan || a.o != 0 || !releq(a.s, 1.0, 1e-12)) dimless = false; }
             if (dimless) { R->count("n_dimensionless_items_without_annotation"); continue; }
+            bool ctx = true; for (auto& d : cur) if (!REF.dim(0, d, false).nan) ctx = false;
+            if (ctx) { R->count("n_context_dependent_items_without_annotation"); continue; }
             R->violation(key, kwname + ":" + item + " has no dimension annotation; manual semantics: " + curs, rp(c)); continue;
         }
         const size_t n = std::lcm(ann.size(), cur.size());
@@ -860,7 +870,9 @@ static void case_e(const std::string& c) {
             // --- Deck
             for (auto& e : B.dexp) {
                 const auto& item = deck[e.kw].back().getRecord(e.rec).getItem(e.item);
-                const auto& v = item.getSIDoubleData();
+                std::vector<double> v;
+                if (item.getType() == Opm::type_tag::uda) { for (size_t i = 0; i < item.data_size(); ++i) v.push_back(item.get<Opm::UDAValue>(i).getSI()); }
+                else v = item.getSIDoubleData();
                 if (v.size() != e.si.size()) { R->violation(std::string("C02:model:deck:") + SYSN[sys], e.kw + ":" + e.item + " has " + std::to_string(v.size()) + " values, model " + std::to_string(e.si.size()), rp(c)); continue; }
                 for (size_t i = 0; i < v.size(); ++i) cmp("deck", e.kw + ":" + e.item + "[" + std::to_string(i) + "]", v[i], e.si[i], e.off);
             }
